@@ -143,6 +143,11 @@ def gen_sequential(rng, seq=None):
             pass
         cmds.append(cmd)
         cmds.append(["settle"])
+        if seq is None and rng.random() < 0.06:
+            # the caller does nothing for a minute or an hour (virtual time): an idle
+            # simulator stays as it is
+            cmds.append(["sleep", rng.choice([61.0, 75.0, 3600.0])])
+            cmds.append(["settle"])
     case["commands"] = cmds
     return case
 
